@@ -72,7 +72,7 @@ def fired_rules(pid, repo, configs, ctx_cache):
 def run_seed(seed, pids, repo, configs_of=None):
     """{pid: sorted rules fired} for one seeded change applied to a scratch copy of repo; or a string reason when the
     change cannot be evaluated"""
-    patch = os.path.join(SEEDED, seed, 'patch.diff')
+    patch = seed if os.path.isabs(seed) else os.path.join(SEEDED, seed, 'patch.diff')
     d, dst = scratch_copy(repo)
     try:
         ok, err = apply_patch(dst, patch)
@@ -141,8 +141,32 @@ def record(jobs=6):
     json.dump(out, open(EXPECT, 'w'), indent=1, sort_keys=True)
 
 
+def benign(jobs=6, only=None):
+    """behaviour-preserving edits (seeded/benign/*.diff): no check may report a violation on any of them"""
+    from concurrent.futures import ProcessPoolExecutor
+    files = sorted(f for f in os.listdir(os.path.join(SEEDED, 'benign')) if f.endswith('.diff'))
+    if only:
+        files = [f for f in files if any(o in f for o in only)]
+    pids = sorted(props.PROPS)
+    bad = 0
+    with ProcessPoolExecutor(max_workers=jobs) as ex:
+        futs = {f: ex.submit(run_seed, os.path.join(SEEDED, 'benign', f), pids, '/repo') for f in files}
+        for f in files:
+            res = futs[f].result()
+            if isinstance(res, str):
+                print('%-45s SKIPPED %s' % (f, res))
+                bad += 1
+                continue
+            fired = {p: r for p, r in res.items() if r}
+            print('%-45s %s' % (f, 'silent' if not fired else 'FALSE ALARM ' + json.dumps(fired)), flush=True)
+            bad += bool(fired)
+    return bad
+
+
 if __name__ == '__main__':
-    if len(sys.argv) > 1 and sys.argv[1] == 'record':
+    if len(sys.argv) > 1 and sys.argv[1] == 'benign':
+        sys.exit(1 if benign(6, sys.argv[2:]) else 0)
+    elif len(sys.argv) > 1 and sys.argv[1] == 'record':
         record(int(sys.argv[2]) if len(sys.argv) > 2 else 6)
     elif len(sys.argv) > 2 and sys.argv[1] == 'seed':
         print(json.dumps(run_seed(sys.argv[2], sys.argv[3:] or sorted(props.PROPS), '/repo'), indent=1))
